@@ -70,6 +70,13 @@ def cases(tier, seed):
             for tol in tols:
                 for pr in range(0, n + 1):
                     out.append({"key": f"cgne/{m}x{n}/c={c:g}/tol={tol:g}/pr={pr}", "ep": "cgne", "m": m, "n": n, "cond": c, "tol": tol, "pr": pr})
+    # larger problems: n > test_sketch_size = 8, where the test sketch is not injective any more
+    for (m, n) in ((10, 9), (12, 12), (14, 10)):
+        for bs in (4, 8, 9):
+            for cs in ("qr", "spd"):
+                out.append({"key": f"col-large/{m}x{n}/b={bs}/{cs}", "ep": "col", "m": m, "n": n, "cond": 10.0, "tol": 1e-6, "bs": bs, "cs": cs, "large": True})
+            out.append({"key": f"row-large/{n}x{m}/b={bs}", "ep": "row", "m": n, "n": m, "cond": 10.0, "tol": 1e-6, "bs": bs, "cs": "qr", "large": True})
+        out.append({"key": f"hyb-large/{m}x{n}", "ep": "hyb", "m": m, "n": n, "cond": 10.0, "tol": 1e-6, "p": 3, "T": 3, "r": 8, "cs": "qr", "large": True})
     for c in out:
         c["S"] = 4 if tier == "quick" else 12
         c["MAXIT"] = 200 if tier == "quick" else 600
@@ -87,9 +94,28 @@ def smin(Pq):
     return float(s[-1]) if len(s) else 0.0
 
 
+_FALLBACK = {"n": 0}
+
+
+def init_worker():
+    """count invocations of the Newton-Schulz fallback micro-solver (observation only)."""
+    sv = load().solver
+    orig = sv.RandomizedSketchProjectPseudoinverse._invert_quat_small
+    if getattr(orig, "_qmc_wrapped", False):
+        return
+
+    def counted(self, A, ns_iters=12):
+        _FALLBACK["n"] += 1
+        return orig(self, A, ns_iters)
+
+    counted._qmc_wrapped = True
+    sv.RandomizedSketchProjectPseudoinverse._invert_quat_small = counted
+
+
 def run_case(case, seed):
     lib = load()
     sv = lib.solver
+    fb0 = _FALLBACK["n"]
     m, n, tol = case["m"], case["n"], case["tol"]
     ep = case["ep"]
     fill = G.Fill(seed, stream=hash_tag(f"{m}x{n}/{case['cond']}"))
@@ -105,6 +131,7 @@ def run_case(case, seed):
     nconv = 0
     transitions = 0
     states = []
+    ratios = []
     for sd in range(S):
         tags = {"ep": ep, "m": m, "n": n, "cond": case["cond"], "tol": tol, "seed": sd}
         before = Aq.tobytes()
@@ -175,8 +202,16 @@ def run_case(case, seed):
             fails.append(fail("history_belongs_to_returned_iterate", f"history[-1]={hist[-1]!r}, proxy recomputed from the returned X = {prox!r}", **tags))
         if conv:
             nconv += 1
-            sm = smin(Pi)
+            sm = smin(Pi) if Pi.shape[1] >= Pi.shape[0] else 0.0
             bound = tol * nPi / (sm * math.sqrt(kdim)) if sm > 0 else math.inf
+            if case.get("large") and not math.isfinite(bound):
+                # the test sketch has fewer columns than rows: no sure bound exists; for a sketch that is
+                # independent of the iterate E Pi small implies E small except with negligible probability.
+                # Seeds are enumerated, so this is a deterministic statement about these traces: measured
+                # ratios ||E||/(sqrt(n) tol) on the pinned tree are <= 3; a sketch correlated with the
+                # iterate (e.g. the update sketch equal to the test sketch) gives ratios ~1e5.
+                bound = 1e3 * tol
+                ratios.append(eN / tol)
             if eN > bound * (1 + 1e-6) + 1e-12 * condA:
                 fails.append(fail("converged=>true_residual_bounded", f"||E||/sqrt(n) = {eN:.3e} > sound bound {bound:.3e} (tol={tol})", **tags))
             err = O.fro(X - Aplus)
@@ -202,12 +237,15 @@ def run_case(case, seed):
         "transitions": max(transitions, 1),
         "traces": evals - len({f["tags"].get("seed") for f in fails}),
         "digest": digest(A, case["key"]),
-        "path": f"{ep},converged={nconv}/{evals}",
+        "path": f"{ep},converged={nconv}/{evals},ns_fallback={'yes' if _FALLBACK['n'] > fb0 else 'no'}",
         "obs": [nconv, [f["clause"] for f in fails]],
+        "ratio_max": max(ratios) if ratios else None,
     }
 
 
 def summarize(results):
     conv = sum(int(r.get("nontrivial_n", 0)) for r in results)
     runs = sum(int(r.get("evals", 0)) for r in results)
-    return {"runs": runs, "runs_converged": conv, "runs_capped_not_converged": runs - conv}
+    rm = [r["ratio_max"] for r in results if r.get("ratio_max") is not None]
+    return {"runs": runs, "runs_converged": conv, "runs_capped_not_converged": runs - conv,
+            "large_cells_max_true_residual_over_tol": max(rm) if rm else None}
